@@ -664,6 +664,16 @@ def judge(ck, items, per, joint, single, progress, mutant=None, stats=None):
         groups = {}
         for p, d in enumerate(dumps):
             groups.setdefault(d, []).append(p)
+        if i < 3:  # what a case looks like (the first programs of the run, whatever their verdict)
+            ck.sample({"program": text.replace(G.PRELUDE + MYPRELUDE, ""), "seed": runs[0][0]["seed"],
+                       "requirement_only_roots": [describe(prog, n) for n in prog["rroots"]],
+                       "perturbations": [j["perturb"] for j, _r in runs],
+                       "distinct_dumps": len(groups), "dump_of_process_0": runs[0][1]["dump"],
+                       "user_visible_draws_of_process_0": [[d["fn"], d["args"], d["res"]] for d in runs[0][1]["draws"]
+                                                            if not d["internal"]][:40],
+                       "internal_draws_of_process_0": sum(1 for d in runs[0][1]["draws"] if d["internal"]),
+                       "dependency_orders_explaining_all_processes": joint[i],
+                       "dependency_orders_explaining_each_process": single[i]}, limit=3)
         flip = None
         if not joint[i] and all(explained):
             reps = [g[0] for g in groups.values()] if not same else list(range(len(runs)))
@@ -679,12 +689,12 @@ def judge(ck, items, per, joint, single, progress, mutant=None, stats=None):
                 # the draws were reordered but the dump happens not to show it: an observation
                 stats["reordered_same_dump"] += 1
                 ck.sample({"observation": "draw order differs across processes, dumps identical",
-                           "program": text.replace(G.PRELUDE + MYPRELUDE, ""), "flipped": flip}, limit=6)
+                           "program": text.replace(G.PRELUDE + MYPRELUDE, ""), "flipped": flip}, limit=9)
             elif not all(explained):
                 ck.sample({"diagnostic": "a draw trace is not a behaviour of the sampler under any dependency order "
                                          "(dumps identical, no verdict-level consequence)",
                            "program": text.replace(G.PRELUDE + MYPRELUDE, ""),
-                           "progress": {str(p): progress.get((i, p)) for p in range(len(runs)) if not explained[p]}}, limit=6)
+                           "progress": {str(p): progress.get((i, p)) for p in range(len(runs)) if not explained[p]}}, limit=9)
             continue
         stats["differing"] += 1
         scene_part = {json.dumps({k: v for k, v in r["dump"].items() if not k.startswith("rng_")}, sort_keys=True) for _j, r in runs}
@@ -720,7 +730,7 @@ def judge(ck, items, per, joint, single, progress, mutant=None, stats=None):
             stats["differing_known"] += 1
             ck.sample({"known_finding": KNOWN_KEY, "program": text.replace(G.PRELUDE + MYPRELUDE, ""),
                        "flipped": flip, "dumps": [json.loads(d) for d in list(groups)[:2]],
-                       "perturbations": [runs[a][0]["perturb"], runs[b][0]["perturb"]]}, limit=6)
+                       "perturbations": [runs[a][0]["perturb"], runs[b][0]["perturb"]]}, limit=9)
     return stats
 
 
